@@ -1,3 +1,6 @@
+// Package vnet: a model of the TCP sockets gldap uses. Every operation is a scheduling point; every
+// operation on one endpoint is an atomic read-modify-write of that endpoint at entry and exit (as the real
+// internal/poll.fdMutex is), which gives the same happens-before edges the real race detector sees.
 package vnet
 
 import (
@@ -7,20 +10,14 @@ import (
 	"io"
 	"net"
 	"os"
+	"strconv"
+	"strings"
 	"time"
 
 	vrt "verif/rt"
 )
 
-type Conn = net.Conn
-type Listener = net.Listener
-type IP = net.IP
-type TCPAddr = net.TCPAddr
-
-var ParseIP = net.ParseIP
-var IPv4 = net.IPv4
-var ResolveTCPAddr = net.ResolveTCPAddr
-var ListenTCP = net.ListenTCP
+// ---- resolver (a table: localhost and IP literals) ----
 
 type resolver struct{}
 
@@ -28,168 +25,411 @@ var DefaultResolver = &resolver{}
 
 func (*resolver) LookupHost(ctx context.Context, host string) ([]string, error) {
 	if host == "localhost" {
-		return []string{"127.0.0.1"}, nil
+		return []string{"127.0.0.1", "::1"}, nil
 	}
 	if ip := net.ParseIP(host); ip != nil {
 		return []string{host}, nil
 	}
-	return nil, errors.New("no such host")
+	return nil, &net.DNSError{Err: "no such host", Name: host, IsNotFound: true}
 }
 
-// world is per-execution state, reset by Reset().
-type world struct{ ports map[string]*listener }
+// ---- world ----
 
-var w = &world{ports: map[string]*listener{}}
-var portObj = &vrt.Obj{}
+type world struct {
+	ports     map[int]*listener
+	everBound map[int]bool
+	nextPort  int
+	o         vrt.Obj
+	open      map[*conn]bool // open server-side endpoints (the descriptor table of the model)
+	accepted  int
+}
 
-func Reset() { w = &world{ports: map[string]*listener{}}; portObj = &vrt.Obj{} }
+var w *world
 
-var errClosed = errors.New("use of closed network connection")
+// Reset creates a fresh world; called at the start of every execution.
+func Reset() {
+	w = &world{ports: map[int]*listener{}, everBound: map[int]bool{}, nextPort: 40000, open: map[*conn]bool{}}
+}
 
-type addr string
+func init() { Reset() }
 
-func (a addr) Network() string { return "tcp" }
-func (a addr) String() string  { return string(a) }
+var errClosed = net.ErrClosed // "use of closed network connection"
+
+type timeoutErr struct{}
+
+func (timeoutErr) Error() string   { return "i/o timeout" }
+func (timeoutErr) Timeout() bool   { return true }
+func (timeoutErr) Temporary() bool { return true }
+func (timeoutErr) Is(e error) bool { return e == os.ErrDeadlineExceeded }
+
+func opErr(op string, err error) error {
+	return &net.OpError{Op: op, Net: "tcp", Err: err}
+}
+
+func portOf(address string) (int, error) {
+	i := strings.LastIndexByte(address, ':')
+	if i < 0 {
+		return 0, fmt.Errorf("address %s: missing port in address", address)
+	}
+	host := address[:i]
+	if host != "" {
+		h := strings.Trim(host, "[]")
+		if h != "localhost" && net.ParseIP(h) == nil {
+			return 0, &net.DNSError{Err: "no such host", Name: h, IsNotFound: true}
+		}
+	}
+	p, err := strconv.Atoi(address[i+1:])
+	if err != nil || p < 0 || p > 65535 {
+		return 0, fmt.Errorf("address %s: invalid port", address)
+	}
+	return p, nil
+}
+
+// ---- listener ----
 
 type listener struct {
 	o       vrt.Obj
-	a       string
+	port    int
 	backlog []*conn
 	closed  bool
 }
 
 func Listen(network, address string) (net.Listener, error) {
-	vrt.Point("net.Listen", nil)
-	portObj.Touch(1)
-	if _, ok := w.ports[address]; ok {
-		return nil, fmt.Errorf("listen tcp %s: bind: address already in use", address)
+	if vrt.InTeardown() {
+		return nil, opErr("listen", errClosed)
 	}
-	l := &listener{a: address}
-	w.ports[address] = l
+	vrt.Point("net.Listen", nil)
+	w.o.Touch(1)
+	port, err := portOf(address)
+	if err != nil {
+		return nil, opErr("listen", err)
+	}
+	if port == 0 {
+		for w.ports[w.nextPort] != nil {
+			w.nextPort++
+		}
+		port = w.nextPort
+		w.nextPort++
+	}
+	if _, ok := w.ports[port]; ok {
+		return nil, opErr("listen", errors.New("bind: address already in use"))
+	}
+	l := &listener{port: port}
+	w.ports[port] = l
+	w.everBound[port] = true
 	return l, nil
 }
 
 func (l *listener) Accept() (net.Conn, error) {
-	l.o.Acquire()
-	l.o.Release()
-	defer func() { l.o.Acquire(); l.o.Release() }()
-	vrt.Point("Accept", func() bool { return len(l.backlog) > 0 || l.closed })
+	if vrt.InTeardown() {
+		return nil, opErr("accept", errClosed)
+	}
+	l.o.RMW()
+	defer l.o.RMW()
+	vrt.Point("Listener.Accept", func() bool { return len(l.backlog) > 0 || l.closed })
 	l.o.Touch(1)
 	if l.closed {
-		return nil, fmt.Errorf("accept tcp %s: %w", l.a, errClosed)
+		return nil, opErr("accept", errClosed)
 	}
 	c := l.backlog[0]
 	l.backlog = l.backlog[1:]
+	w.open[c] = true
+	w.accepted++
+	vrt.Logf("env: accepted %s", c.name)
 	return c, nil
 }
 
 func (l *listener) Close() error {
-	if !vrt.InTeardown() {
-		vrt.Point("Listener.Close", nil)
-		l.o.Touch(2)
-		l.o.Acquire()
-		l.o.Release()
-		defer func() { l.o.Acquire(); l.o.Release() }()
+	if vrt.InTeardown() {
+		l.closed = true
+		return nil
 	}
+	l.o.RMW()
+	defer l.o.RMW()
+	vrt.Point("Listener.Close", nil)
+	l.o.Touch(2)
 	if l.closed {
-		return fmt.Errorf("close tcp %s: %w", l.a, errClosed)
+		return opErr("close", errClosed)
 	}
 	l.closed = true
-	delete(w.ports, l.a)
-	portObj.Touch(3)
-	for _, c := range l.backlog {
-		c.peer.peerClosed = true
+	delete(w.ports, l.port)
+	w.o.Touch(3)
+	for _, c := range l.backlog { // never accepted: the kernel resets them
+		c.closed = true
+		c.peer.reset = true
 	}
+	l.backlog = nil
+	vrt.Logf("env: listener closed")
 	return nil
 }
-func (l *listener) Addr() net.Addr { return addr(l.a) }
 
-func PortBound(address string) bool { _, ok := w.ports[address]; return ok }
+func (l *listener) Addr() net.Addr { return &net.TCPAddr{IP: net.IPv4(127, 0, 0, 1), Port: l.port} }
+
+// PortBound reports whether something listens on the port (the bind probe of the harness).
+func PortBound(port int) bool { _, ok := w.ports[port]; return ok }
+
+// OpenServerEndpoints lists server-side endpoints that were accepted and not closed.
+func OpenServerEndpoints() []string {
+	var out []string
+	for c := range w.open {
+		if !c.closed {
+			out = append(out, c.name)
+		}
+	}
+	return out
+}
+
+// Accepted is the number of connections handed out by Accept so far.
+func Accepted() int { return w.accepted }
+
+// ---- connections ----
 
 type conn struct {
-	o          vrt.Obj
-	name       string
-	rbuf       []byte
-	peer       *conn
-	closed     bool
-	peerClosed bool
-	rdl        time.Time
-	Wire       *[]byte // bytes received by this end (log)
+	o       vrt.Obj
+	name    string
+	server  bool
+	rbuf    []byte // bytes in flight towards this endpoint
+	peer    *conn
+	closed  bool // closed locally
+	peerFIN bool // the peer closed: EOF after the buffered data
+	reset   bool // connection reset by peer
+	rdl     time.Time
+	wdl     time.Time
+	recvCap int // >0: at most this many bytes are buffered towards this endpoint (back-pressure)
+	local   net.Addr
+	remote  net.Addr
+	// Tap, when set on the client endpoint, receives every chunk the server sends (the wiretap).
+	Tap func(fromServer bool, b []byte)
 }
 
-// Dial blocks until the port is bound (models a client retrying connect).
-func Dial(address string) (net.Conn, error) {
-	vrt.Point("Dial", func() bool { return PortBound(address) })
-	portObj.Touch(2)
-	l := w.ports[address]
-	l.o.Touch(3)
-	c := &conn{name: "client"}
-	s := &conn{name: "server"}
-	c.peer, s.peer = s, c
-	l.backlog = append(l.backlog, s)
-	return c, nil
+// DialOpts controls the client endpoint.
+type DialOpts struct {
+	Name    string
+	RecvBuf int // >0: client-side receive buffer limit (the server's writes block when it is full)
 }
+
+var errRefused = errors.New("connect: connection refused")
+
+// Dial connects to address; like a real connect it fails at once when nothing listens.
+func Dial(address string, o DialOpts) (*Client, error) {
+	if vrt.InTeardown() {
+		return nil, opErr("dial", errClosed)
+	}
+	vrt.Point("Dial", nil)
+	w.o.Touch(2)
+	port, err := portOf(address)
+	if err != nil {
+		return nil, opErr("dial", err)
+	}
+	l := w.ports[port]
+	if l == nil {
+		return nil, opErr("dial", errRefused)
+	}
+	l.o.Touch(3)
+	name := o.Name
+	if name == "" {
+		name = fmt.Sprintf("c%d", w.accepted+len(l.backlog)+1)
+	}
+	c := &conn{name: name + ".client", recvCap: o.RecvBuf}
+	s := &conn{name: name + ".server", server: true}
+	c.peer, s.peer = s, c
+	c.local = &net.TCPAddr{IP: net.IPv4(127, 0, 0, 1), Port: 50000 + len(l.backlog)}
+	c.remote = &net.TCPAddr{IP: net.IPv4(127, 0, 0, 1), Port: port}
+	s.local, s.remote = c.remote, c.local
+	l.backlog = append(l.backlog, s)
+	return &Client{conn: c}, nil
+}
+
+// DialWait blocks until something listens on the port (a client that retries its connect), then dials.
+func DialWait(address string, o DialOpts) (*Client, error) {
+	port, err := portOf(address)
+	if err != nil {
+		return nil, err
+	}
+	// a client that retries its connect: it gets through once something listens, and gives up (refused)
+	// once the port has been bound and released again
+	vrt.Point("DialWait", func() bool { return w.ports[port] != nil || w.everBound[port] })
+	return Dial(address, o)
+}
+
+// Pipe returns a connected pair without a listener (conn-level fixture).
+func Pipe(name string, clientRecvBuf int) (*Client, net.Conn) {
+	c := &conn{name: name + ".client", recvCap: clientRecvBuf}
+	s := &conn{name: name + ".server", server: true}
+	c.peer, s.peer = s, c
+	c.local = &net.TCPAddr{IP: net.IPv4(127, 0, 0, 1), Port: 50000}
+	c.remote = &net.TCPAddr{IP: net.IPv4(127, 0, 0, 1), Port: 389}
+	s.local, s.remote = c.remote, c.local
+	w.open[s] = true
+	return &Client{conn: c}, s
+}
+
+func (c *conn) expired(dl time.Time) bool { return !dl.IsZero() && !vrt.Now().Before(dl) }
 
 func (c *conn) Read(p []byte) (int, error) {
 	if vrt.InTeardown() {
-		return 0, errClosed
+		return 0, opErr("read", errClosed)
 	}
-	c.o.Acquire()
-	c.o.Release()
-	defer func() { c.o.Acquire(); c.o.Release() }()
-	vrt.Point(c.name+".Read", func() bool { return len(c.rbuf) > 0 || c.peerClosed || c.closed })
+	c.o.RMW()
+	defer c.o.RMW()
+	vrt.PointTimed(c.name+".Read", func() bool {
+		return len(c.rbuf) > 0 || c.peerFIN || c.reset || c.closed || c.expired(c.rdl)
+	}, func() time.Time { return c.rdl })
 	c.o.Touch(1)
-	if c.closed {
-		return 0, fmt.Errorf("read tcp: %w", errClosed)
-	}
-	if len(c.rbuf) == 0 {
+	switch {
+	case c.closed:
+		return 0, opErr("read", errClosed)
+	case c.expired(c.rdl):
+		return 0, opErr("read", timeoutErr{})
+	case len(p) == 0:
+		return 0, nil
+	case len(c.rbuf) > 0:
+		n := copy(p, c.rbuf)
+		c.rbuf = c.rbuf[n:]
+		c.peer.o.Touch(6) // window update
+		return n, nil
+	case c.reset:
+		return 0, opErr("read", errors.New("read: connection reset by peer"))
+	default:
 		return 0, io.EOF
 	}
-	n := copy(p, c.rbuf)
-	c.rbuf = c.rbuf[n:]
-	return n, nil
 }
 
 func (c *conn) Write(p []byte) (int, error) {
 	if vrt.InTeardown() {
-		return 0, errClosed
+		return 0, opErr("write", errClosed)
 	}
-	c.o.Acquire()
-	c.o.Release()
-	defer func() { c.o.Acquire(); c.o.Release() }()
-	vrt.Point(c.name+".Write", nil)
-	c.o.Touch(2)
-	c.peer.o.Touch(3)
-	if c.closed {
-		return 0, fmt.Errorf("write tcp: %w", errClosed)
+	c.o.RMW()
+	defer c.o.RMW()
+	written := 0
+	for {
+		vrt.PointTimed(c.name+".Write", func() bool {
+			return c.closed || c.reset || c.peer.closed || c.expired(c.wdl) || c.peer.recvCap == 0 || len(c.peer.rbuf) < c.peer.recvCap
+		}, func() time.Time { return c.wdl })
+		c.o.Touch(2)
+		switch {
+		case c.closed:
+			return written, opErr("write", errClosed)
+		case c.expired(c.wdl):
+			return written, opErr("write", timeoutErr{})
+		case c.reset:
+			return written, opErr("write", errors.New("write: connection reset by peer"))
+		case c.peer.closed:
+			return written, opErr("write", errors.New("write: broken pipe"))
+		}
+		chunk := p[written:]
+		if c.peer.recvCap > 0 {
+			if room := c.peer.recvCap - len(c.peer.rbuf); len(chunk) > room {
+				chunk = chunk[:room]
+			}
+		}
+		c.peer.rbuf = append(c.peer.rbuf, chunk...)
+		c.peer.o.Touch(3)
+		if c.server && c.peer.Tap != nil {
+			c.peer.Tap(true, chunk)
+		} else if !c.server && c.Tap != nil {
+			c.Tap(false, chunk)
+		}
+		written += len(chunk)
+		if written == len(p) {
+			return written, nil
+		}
 	}
-	if c.peer.closed {
-		return 0, errors.New("write tcp: broken pipe")
-	}
-	c.peer.rbuf = append(c.peer.rbuf, p...)
-	return len(p), nil
 }
 
 func (c *conn) Close() error {
-	if !vrt.InTeardown() {
-		vrt.Point(c.name+".Close", nil)
-		c.o.Touch(4)
-		c.peer.o.Touch(5)
-		c.o.Acquire()
-		c.o.Release()
-		defer func() { c.o.Acquire(); c.o.Release() }()
+	if vrt.InTeardown() {
+		c.closed = true
+		return nil
 	}
+	c.o.RMW()
+	defer c.o.RMW()
+	vrt.Point(c.name+".Close", nil)
+	c.o.Touch(4)
 	if c.closed {
-		return fmt.Errorf("close tcp: %w", errClosed)
+		return opErr("close", errClosed)
 	}
 	c.closed = true
-	c.peer.peerClosed = true
+	c.peer.peerFIN = true
+	c.peer.o.Touch(5)
+	if c.server {
+		vrt.Logf("env: server closed %s", c.name)
+	}
 	return nil
 }
-func (c *conn) LocalAddr() net.Addr                { return addr("local") }
-func (c *conn) RemoteAddr() net.Addr               { return addr("remote") }
-func (c *conn) SetDeadline(t time.Time) error      { return nil }
-func (c *conn) SetReadDeadline(t time.Time) error  { c.rdl = t; return nil }
-func (c *conn) SetWriteDeadline(t time.Time) error { return nil }
 
-var _ = os.ErrDeadlineExceeded
+func (c *conn) LocalAddr() net.Addr  { return c.local }
+func (c *conn) RemoteAddr() net.Addr { return c.remote }
+
+func (c *conn) SetDeadline(t time.Time) error {
+	if vrt.InTeardown() {
+		return nil
+	}
+	c.o.RMW()
+	vrt.Point(c.name+".SetDeadline", nil)
+	c.o.Touch(7)
+	if c.closed {
+		return opErr("set", errClosed)
+	}
+	c.rdl, c.wdl = t, t
+	return nil
+}
+
+func (c *conn) SetReadDeadline(t time.Time) error {
+	if vrt.InTeardown() {
+		return nil
+	}
+	c.o.RMW()
+	vrt.Point(c.name+".SetReadDeadline", nil)
+	c.o.Touch(8)
+	if c.closed {
+		return opErr("set", errClosed)
+	}
+	c.rdl = t
+	return nil
+}
+
+func (c *conn) SetWriteDeadline(t time.Time) error {
+	if vrt.InTeardown() {
+		return nil
+	}
+	c.o.RMW()
+	vrt.Point(c.name+".SetWriteDeadline", nil)
+	c.o.Touch(9)
+	if c.closed {
+		return opErr("set", errClosed)
+	}
+	c.wdl = t
+	return nil
+}
+
+// ---- client side (harness) ----
+
+// Client is the harness's end of a connection. It implements net.Conn (so crypto/tls can run over it).
+type Client struct{ *conn }
+
+// Reset aborts the connection (RST): the server's pending and later reads/writes fail.
+func (c *Client) Reset() {
+	if vrt.InTeardown() {
+		return
+	}
+	c.o.RMW()
+	vrt.Point(c.name+".Reset", nil)
+	c.o.Touch(10)
+	c.closed = true
+	c.peer.reset = true
+	c.peer.rbuf = nil
+	c.peer.o.Touch(11)
+}
+
+// SetTap installs the wiretap (called with every chunk in either direction).
+func (c *Client) SetTap(f func(fromServer bool, b []byte)) { c.conn.Tap = f }
+
+// ServerClosed reports whether the server closed its end.
+func (c *Client) ServerClosed() bool { return c.peer.closed }
+
+// Pending is the number of bytes the server has sent that the client has not read yet.
+func (c *Client) Pending() int { return len(c.rbuf) }
+
+// ServerUnread is the number of bytes the client sent that the server has not read.
+func (c *Client) ServerUnread() int { return len(c.peer.rbuf) }
